@@ -99,6 +99,9 @@ func (c *FnCtx) evalCall(st *State, call *ast.CallExpr) []*Val {
 		if fv != nil && fv.FnObj != nil {
 			return c.callFunc(st, call, fv.FnObj, fv.Recv, args)
 		}
+		if pv, ok := ci.local.(*types.Var); ok && c.isParam(pv) {
+			return c.traceCallback(st, call, pv, args)
+		}
 		return c.callUnknown(st, call, "call through function value "+ci.local.Name())
 	case ci.fn != nil:
 		var recv *Val
@@ -481,13 +484,17 @@ type frame struct {
 
 // inlineLit executes a function literal body in the current state (closures capture by reference).
 func (c *FnCtx) inlineLit(st *State, lit *ast.FuncLit, args []*Val, at ast.Node) []*Val {
+	sig, _ := c.typeOf(lit).(*types.Signature)
+	return c.inlineBody(st, lit, sig, args, at)
+}
+
+func (c *FnCtx) inlineBody(st *State, lit *ast.FuncLit, sig *types.Signature, args []*Val, at ast.Node) []*Val {
 	if c.depth > 12 {
 		c.warn("closure inlining too deep at %s: havoc", c.pos(at))
 		return c.callUnknown(st, &ast.CallExpr{Fun: lit}, "deep closure")
 	}
 	c.depth++
 	defer func() { c.depth-- }()
-	sig, _ := c.typeOf(lit).(*types.Signature)
 	// bind params
 	i := 0
 	for _, f := range lit.Type.Params.List {
@@ -598,6 +605,13 @@ func (c *FnCtx) callFunc(st *State, call *ast.CallExpr, fn *types.Func, recv *Va
 		// interface method: try "<pkg>.<Iface>.<m>" already; else fall back
 		return c.callNoContract(st, call, fn, recv, args, key)
 	}
+	if con.Flags["inline"] {
+		if fd := c.V.funcs[key]; fd != nil && c.V.funcPkg[key] == c.pkg && fd.Body != nil && fd.Recv == nil {
+			c.usedCons[key+" (inlined)"] = true
+			return c.inlineBody(st, &ast.FuncLit{Type: fd.Type, Body: fd.Body}, sig, args, call)
+		}
+		c.warn("inline %s: only same-package functions without receiver can be inlined", key)
+	}
 	c.usedCons[key] = true
 	// bind names
 	bind := map[string]*Val{}
@@ -646,6 +660,21 @@ func (c *FnCtx) callFunc(st *State, call *ast.CallExpr, fn *types.Func, recv *Va
 			c.applyModifies(st, envPre, m)
 		}
 	}
+	var iterCount, iterLast *Val
+	if con.Iter != nil {
+		c.iterCount, c.iterLast = nil, nil
+		defer func() {}()
+	}
+	if con.Iter != nil {
+		if done := c.iterateCallback(st, call, con, bind, envPre, args, names, sig); !done {
+			c.warn("iterator call at %s: callback is not a closure literal; treated as opaque", c.pos(call))
+			ms := newModSet()
+			ms.all = true
+			c.havoc(st, ms, "iter")
+		}
+		iterCount, iterLast = c.iterCount, c.iterLast
+	}
+	c.closureArgsArbitrary(st, call, con, all, names)
 	// abstract values updated in place (receiver of container methods)
 	postBind := map[string]*Val{}
 	recvExpr := c.curRecvExpr
@@ -702,6 +731,14 @@ func (c *FnCtx) callFunc(st *State, call *ast.CallExpr, fn *types.Func, recv *Va
 		}
 		if v, ok := postBind[name]; ok {
 			return v
+		}
+		if con.Iter != nil && iterCount != nil {
+			switch name {
+			case "nvisited":
+				return iterCount
+			case "lastret":
+				return iterLast
+			}
 		}
 		return bind[name]
 	}
@@ -848,8 +885,420 @@ func (c *FnCtx) callNoContract(st *State, call *ast.CallExpr, fn *types.Func, re
 			}
 		}
 	}
+	c.closureArgsArbitrary(st, call, nil, append([]*Val{recv}, args...), nil)
 	if sig == nil {
 		return nil
 	}
 	return c.havocResults(st, sig.Results())
+}
+
+// closureArgsArbitrary: a closure literal handed to a callee that gives no iteration contract for it may be called
+// by that callee any number of times with arbitrary arguments (its body is executed under that assumption, so that
+// obligations inside it are still generated).
+func (c *FnCtx) closureArgsArbitrary(st *State, call *ast.CallExpr, con *Contract, all []*Val, names []string) {
+	for i, a := range all {
+		if a == nil || a.Fn == nil {
+			continue
+		}
+		if con != nil && con.Iter != nil && i < len(names) && names[i] == con.Iter.Param {
+			continue
+		}
+		if c.arbDepth > 2 {
+			continue
+		}
+		c.arbDepth++
+		fake := &Contract{Iter: &IterSpec{Param: "cb"}}
+		c.loopOrdSynthetic(a.Fn)
+		c.invokeArbitrarilyAt(st, a.Fn, call, fake, map[string]*Val{"cb": a}, &SpecEnv{c: c, st: st, lookup: func(string) *Val { return nil }})
+		c.arbDepth--
+	}
+}
+
+func (c *FnCtx) loopOrdSynthetic(n ast.Node) {
+	if _, ok := c.loopOrd[n]; !ok {
+		c.loopOrd[n] = 1000 + len(c.loopOrd)
+	}
+}
+
+// traceCallback: a call through a function-typed parameter. The argument values are appended to ghost sequences
+// calls.<param> (first argument), calls2.<param> (second); the result is arbitrary and remembered in lastret.<param>.
+// Assumption (listed): the callback does not modify the data structures of the function under verification.
+func (c *FnCtx) traceCallback(st *State, call *ast.CallExpr, pv *types.Var, args []*Val) []*Val {
+	c.assumeNote("callbacks received as parameters are recorded in a ghost call trace and assumed not to modify the container being iterated")
+	for i, a := range args {
+		if i > 1 || a.S == SNone {
+			break
+		}
+		gn := "calls." + pv.Name()
+		if i == 1 {
+			gn = "calls2." + pv.Name()
+		}
+		gs := seqSort(a.S)
+		c.declSeq(gs)
+		gv := c.traceGhost(gn, gs)
+		cur := c.ghostGet(st, gv)
+		st.ghost[gn] = tApp("app1_"+sortName(gs), cur, a.T)
+	}
+	sig, _ := pv.Type().Underlying().(*types.Signature)
+	var rs []*Val
+	if sig != nil {
+		rs = c.havocResults(st, sig.Results())
+	}
+	isIter := c.con != nil && c.con.Iter != nil && c.con.Iter.Param == pv.Name()
+	if isIter {
+		c.iterProtocol(st, call, pv, args)
+	}
+	if len(rs) > 0 && rs[0].S == SBool {
+		gv := c.traceGhost("lastret."+pv.Name(), SBool)
+		c.ghostGet(st, gv)
+		st.ghost[gv.Name] = rs[0].T
+	}
+	return rs
+}
+
+func (c *FnCtx) traceGhost(name string, s Sort) *GhostVar {
+	if gv, ok := c.V.specs.GhostVars[name]; ok {
+		return gv
+	}
+	gv := &GhostVar{Name: name, Sort: s}
+	c.V.specs.GhostVars[name] = gv
+	found := false
+	for _, g := range c.V.specs.GVOrder {
+		if g == name {
+			found = true
+		}
+	}
+	if !found {
+		c.V.specs.GVOrder = append(c.V.specs.GVOrder, name)
+	}
+	return gv
+}
+
+// iterateCallback turns `container.Iter(..., func(...) bool {...})` into a loop over the ghost sequence of the
+// callee's `iterates` clause, with the closure body executed in place (DESIGN §3.4).
+func (c *FnCtx) iterateCallback(st *State, call *ast.CallExpr, con *Contract, bind map[string]*Val, envPre *SpecEnv, args []*Val, names []string, sig *types.Signature) bool {
+	cb := bind[con.Iter.Param]
+	if cb == nil {
+		return false
+	}
+	if con.Iter.Guard != nil || con.Iter.Seq.Expr == nil {
+		// guarded contract: under the guard the precise loop, otherwise an arbitrary number of invocations on
+		// arbitrary elements satisfying the `only` condition
+		g := "false"
+		if con.Iter.Guard != nil && con.Iter.Seq.Expr != nil {
+			g = c.specBool(envPre, con.Iter.Guard.Expr)
+		}
+		var ends []*State
+		var cnts, lasts []*Val
+		if g != "false" {
+			s1 := st.clone()
+			s1.assume(g)
+			plain := *con
+			pit := *con.Iter
+			pit.Guard = nil
+			plain.Iter = &pit
+			e1 := *envPre
+			e1.st = s1
+			e1.old = &e1
+			if c.iterateCallback(s1, call, &plain, bind, &e1, args, names, sig) && !c.diverged(s1) {
+				ends = append(ends, s1)
+				cnts = append(cnts, c.iterCount)
+				lasts = append(lasts, c.iterLast)
+			}
+		}
+		s2 := st.clone()
+		s2.assume(tNot(g))
+		if c.invokeArbitrarily(s2, call, con, bind, envPre) && !c.diverged(s2) {
+			ends = append(ends, s2)
+			cnts = append(cnts, c.iterCount)
+			lasts = append(lasts, c.iterLast)
+		}
+		if len(ends) == 0 {
+			st.assume("false")
+			return true
+		}
+		conds := make([]string, len(ends))
+		for i := range ends {
+			conds[i] = ends[i].pcTerm()
+		}
+		m := c.merge(ends)
+		*st = *m
+		c.iterCount = c.mergeVals(cnts, conds, "nvisited")
+		c.iterLast = c.mergeVals(lasts, conds, "lastret")
+		return true
+	}
+	var lit *ast.FuncLit
+	if cb.Fn != nil {
+		lit = cb.Fn
+	}
+	var paramCB *types.Var
+	if lit == nil {
+		// a function-typed parameter passed through: each invocation is a traced callback call
+		off := 0
+		if sig.Recv() != nil {
+			off = 1
+		}
+		for i, n := range names {
+			if n == con.Iter.Param && i-off >= 0 && i-off < len(call.Args) {
+				if id, ok := call.Args[i-off].(*ast.Ident); ok {
+					if pv, ok := c.info.ObjectOf(id).(*types.Var); ok && c.isParam(pv) {
+						paramCB = pv
+					}
+				}
+			}
+		}
+		if paramCB == nil {
+			return false
+		}
+	}
+	S := c.specEval(envPre, con.Iter.Seq.Expr)
+	if !isSeq(S.S) && S.S != SStr {
+		c.specErr("iterates: %s is not a sequence", con.Iter.Seq.Src)
+		return false
+	}
+	n := c.seqLen(S)
+	idxObj := types.NewVar(call.Pos(), c.pkg.Types, fmt.Sprintf("iter_k_%d", c.loopOrd[call]), types.Typ[types.Int])
+	st.vars[idxObj] = &Val{T: "0", S: SInt, Typ: types.Typ[types.Int]}
+	c.rangeIdx[call] = idxObj
+	c.rangeLen[call] = n
+	cntObj := types.NewVar(call.Pos(), c.pkg.Types, fmt.Sprintf("iter_ncalls_%d", c.loopOrd[call]), types.Typ[types.Int])
+	lastObj := types.NewVar(call.Pos(), c.pkg.Types, fmt.Sprintf("iter_last_%d", c.loopOrd[call]), types.Typ[types.Bool])
+	st.vars[cntObj] = &Val{T: "0", S: SInt, Typ: types.Typ[types.Int]}
+	st.vars[lastObj] = &Val{T: "true", S: SBool, Typ: types.Typ[types.Bool]}
+	c.iterExtra[call] = []types.Object{cntObj, lastObj}
+	var bodyNode ast.Node = call
+	if lit != nil {
+		bodyNode = lit.Body
+	}
+	cond := func(s *State) string { return tApp("<", s.vars[idxObj].T, n) }
+	body := func(s *State) []Exit {
+		k := s.vars[idxObj]
+		it := &Val{T: c.seqAt(S, k.T), S: elemSort(S.S)}
+		env := envPre.withBound("it", it).withBound("k", k)
+		env.st = s
+		var cargs []*Val
+		var ptypes []types.Type
+		if lit != nil {
+			lsig, _ := c.typeOf(lit).(*types.Signature)
+			for i := 0; lsig != nil && i < lsig.Params().Len(); i++ {
+				ptypes = append(ptypes, lsig.Params().At(i).Type())
+			}
+		} else if ps, ok := paramCB.Type().Underlying().(*types.Signature); ok {
+			for i := 0; i < ps.Params().Len(); i++ {
+				ptypes = append(ptypes, ps.Params().At(i).Type())
+			}
+		}
+		for i, a := range con.Iter.Args {
+			v := c.specEval(env, a.Expr)
+			if i < len(ptypes) {
+				v = &Val{T: v.T, S: v.S, Typ: ptypes[i]}
+				if c.sortOf(ptypes[i]) == SNone {
+					v = c.havocVal(s, ptypes[i], "cbarg")
+				}
+			}
+			cargs = append(cargs, v)
+		}
+		for i := len(cargs); i < len(ptypes); i++ {
+			cargs = append(cargs, c.havocVal(s, ptypes[i], "cbarg"))
+		}
+		var skip *State
+		if con.Iter.When != nil {
+			cw := c.specBool(env, con.Iter.When.Expr)
+			skip = s.clone()
+			skip.assume(tNot(cw))
+			s.assume(cw)
+		}
+		var rs []*Val
+		if lit != nil {
+			rs = c.inlineLit(s, lit, cargs, call)
+		} else {
+			rs = c.traceCallback(s, call, paramCB, cargs)
+		}
+		if c.diverged(s) {
+			if skip != nil {
+				return normal(skip)
+			}
+			return nil
+		}
+		// elements consumed so far: the index at the time of the call (k) plus one
+		s.vars[cntObj] = &Val{T: tApp("+", k.T, "1"), S: SInt, Typ: types.Typ[types.Int]}
+		if skip != nil {
+			defer func() {}()
+		}
+		if skip != nil && (len(rs) == 0 || rs[0].S != SBool) {
+			return []Exit{{kind: exNormal, st: s}, {kind: exNormal, st: skip}}
+		}
+		if skip != nil {
+			s.vars[lastObj] = &Val{T: rs[0].T, S: SBool, Typ: types.Typ[types.Bool]}
+			sT := s.clone()
+			sT.assume(rs[0].T)
+			sF := s.clone()
+			sF.assume(tNot(rs[0].T))
+			return []Exit{{kind: exNormal, st: sT}, {kind: exBreak, st: sF}, {kind: exNormal, st: skip}}
+		}
+		if len(rs) == 0 || rs[0].S != SBool {
+			return normal(s)
+		}
+		s.vars[lastObj] = &Val{T: rs[0].T, S: SBool, Typ: types.Typ[types.Bool]}
+		sT := s.clone()
+		sT.assume(rs[0].T)
+		sF := s.clone()
+		sF.assume(tNot(rs[0].T))
+		return []Exit{{kind: exNormal, st: sT}, {kind: exBreak, st: sF}}
+	}
+	post := func(s *State) []Exit {
+		i := s.vars[idxObj]
+		s.vars[idxObj] = &Val{T: tApp("+", i.T, "1"), S: SInt, Typ: i.Typ}
+		return normal(s)
+	}
+	exits := c.execLoop(st, call, "", bodyNode, cond, body, post)
+	var ends []*State
+	for _, ex := range exits {
+		if ex.kind == exNormal {
+			ends = append(ends, ex.st)
+		} else if ex.kind != exPanic {
+			c.warn("non-local exit from an iterator callback at %s", c.pos(call))
+		}
+	}
+	if len(ends) == 0 {
+		st.assume("false")
+		return true
+	}
+	m := c.merge(ends)
+	*st = *m
+	c.iterCount = st.vars[cntObj]
+	c.iterLast = st.vars[lastObj]
+	return true
+}
+
+// iterProtocol: the function under verification promises (`iterates p seq S args A when C position E`) to behave like
+//     for k := range S { if C(S[k]) { if !p(A(S[k])) { break } } }
+// At each invocation of p the obligations are: p has not yet said stop; the claimed position E is the next
+// C-element of S at or after the previous one; the arguments are A(S[E]). The ghost nextpos.<p> is then E+1.
+func (c *FnCtx) iterProtocol(st *State, call *ast.CallExpr, pv *types.Var, args []*Val) {
+	it := c.con.Iter
+	name := pv.Name()
+	guard := "true"
+	envHere0 := c.specEnvAt(st, call.Pos())
+	if it.Guard != nil {
+		guard = c.specBool(envHere0.old, it.Guard.Expr)
+	}
+	mk := func(kind, descr, goal string) {
+		c.nObl["iter."+kind]++
+		c.addObl(&Obligation{Name: fmt.Sprintf("%s/iterates.%s/%s#%d", c.key, name, kind, c.nObl["iter."+kind]), Kind: "iterates",
+			Descr: descr, Pos: c.pos(call), Hyps: append([]string(nil), st.pc...), Goal: tImp(guard, goal), Clause: "iterates " + name + " seq " + it.Seq.Src})
+	}
+	if it.Only != nil && len(args) > 0 && args[0].S != SNone {
+		e := envHere0.withBound("it", args[0])
+		c.nObl["iter.only"]++
+		c.addObl(&Obligation{Name: fmt.Sprintf("%s/invokes.%s/only#%d", c.key, name, c.nObl["iter.only"]), Kind: "invokes",
+			Descr: "every invocation of the callback satisfies the `only` condition", Pos: c.pos(call), Hyps: append([]string(nil), st.pc...),
+			Goal: c.specBool(e, it.Only.Expr), Clause: "invokes " + name + " only " + it.Only.Src})
+	}
+	if it.Seq.Expr == nil {
+		return
+	}
+	lastGV := c.traceGhost("lastret."+name, SBool)
+	last := c.ghostGet(st, lastGV)
+	mk("not-after-stop", "the callback is not invoked again after it returned false", last)
+	npGV := c.traceGhost("nextpos."+name, SInt)
+	np := c.ghostGet(st, npGV)
+	envHere := c.specEnvAt(st, call.Pos())
+	S := c.specEval(envHere.old, it.Seq.Expr)
+	if !isSeq(S.S) && S.S != SStr {
+		c.specErr("iterates: %s is not a sequence", it.Seq.Src)
+		return
+	}
+	if it.Pos == nil {
+		c.specErr("iterates %s: a `position` expression is needed to verify the body", name)
+		return
+	}
+	pos := c.specEval(envHere, it.Pos.Expr).T
+	mk("position", "the element passed is at or after the next expected position of S", tAnd(tApp("<=", np, pos), tApp("<", pos, c.seqLen(S))))
+	itv := func(idx string) *SpecEnv {
+		e := envHere.old.withBound("k", &Val{T: idx, S: SInt}).withBound("it", &Val{T: c.seqAt(S, idx), S: elemSort(S.S)})
+		return e
+	}
+	if it.When != nil {
+		c.nfresh++
+		m := fmt.Sprintf("m!q%d", c.nfresh)
+		cm := c.specBool(itv(m), it.When.Expr)
+		mk("skipped", "every element skipped since the previous invocation fails the `when` condition",
+			fmt.Sprintf("(forall ((%s Int)) (=> (and (<= %s %s) (< %s %s)) (not %s)))", m, np, m, m, pos, cm))
+		mk("when", "the element passed satisfies the `when` condition", c.specBool(itv(pos), it.When.Expr))
+	} else {
+		mk("consecutive", "no element of S is skipped", tEq(pos, np))
+	}
+	for i, a := range it.Args {
+		if i >= len(args) || args[i].S == SNone {
+			continue
+		}
+		want := c.specEval(itv(pos), a.Expr)
+		mk(fmt.Sprintf("arg%d", i+1), "the argument passed is the one the contract names", tEq(args[i].T, c.coerce(want, args[i].S).T))
+	}
+	st.ghost[npGV.Name] = tApp("+", pos, "1")
+}
+
+// invokeArbitrarily: the callee may call the closure any number of times on arbitrary elements that satisfy the
+// `only` condition of its contract (used where the precise iteration contract is not available).
+func (c *FnCtx) invokeArbitrarily(st *State, call *ast.CallExpr, con *Contract, bind map[string]*Val, envPre *SpecEnv) bool {
+	return c.invokeArbitrarilyAt(st, call, call, con, bind, envPre)
+}
+
+func (c *FnCtx) invokeArbitrarilyAt(st *State, node ast.Node, call *ast.CallExpr, con *Contract, bind map[string]*Val, envPre *SpecEnv) bool {
+	cb := bind[con.Iter.Param]
+	if cb == nil || cb.Fn == nil {
+		return false
+	}
+	lit := cb.Fn
+	lsig, _ := c.typeOf(lit).(*types.Signature)
+	cntObj := types.NewVar(call.Pos(), c.pkg.Types, fmt.Sprintf("arb_ncalls_%d", c.loopOrd[node]), types.Typ[types.Int])
+	lastObj := types.NewVar(call.Pos(), c.pkg.Types, fmt.Sprintf("arb_last_%d", c.loopOrd[node]), types.Typ[types.Bool])
+	st.vars[cntObj] = &Val{T: c.fresh("arb_n", SInt), S: SInt, Typ: types.Typ[types.Int]}
+	st.assume(tApp(">=", st.vars[cntObj].T, "0"))
+	st.vars[lastObj] = &Val{T: c.fresh("arb_last", SBool), S: SBool, Typ: types.Typ[types.Bool]}
+	if node == ast.Node(call) {
+		c.iterExtra[call] = nil
+		delete(c.rangeIdx, call)
+	}
+	cond := func(s *State) string { return c.fresh("more", SBool) }
+	body := func(s *State) []Exit {
+		var cargs []*Val
+		for i := 0; lsig != nil && i < lsig.Params().Len(); i++ {
+			cargs = append(cargs, c.havocVal(s, lsig.Params().At(i).Type(), "arb"))
+		}
+		if con.Iter.Only != nil && len(cargs) > 0 {
+			e := envPre.withBound("it", cargs[0])
+			e.st = s
+			s.assume(c.specBool(e, con.Iter.Only.Expr))
+		}
+		rs := c.inlineLit(s, lit, cargs, call)
+		if c.diverged(s) {
+			return nil
+		}
+		if len(rs) == 0 || rs[0].S != SBool {
+			return normal(s)
+		}
+		sT := s.clone()
+		sT.assume(rs[0].T)
+		sF := s.clone()
+		sF.assume(tNot(rs[0].T))
+		return []Exit{{kind: exNormal, st: sT}, {kind: exBreak, st: sF}}
+	}
+	exits := c.execLoop(st, node, "", lit.Body, cond, body, nil)
+	var ends []*State
+	for _, ex := range exits {
+		if ex.kind == exNormal {
+			ends = append(ends, ex.st)
+		}
+	}
+	if len(ends) == 0 {
+		st.assume("false")
+		return true
+	}
+	m := c.merge(ends)
+	*st = *m
+	c.iterCount = st.vars[cntObj]
+	c.iterLast = st.vars[lastObj]
+	return true
 }
